@@ -53,6 +53,12 @@ def main(path):
     key = (label, idx)
     if key not in fo or key not in fr:
         return "error", f"label {key} not produced in replay"
+    from sx.harness import Claim
+    if isinstance(fr[key], Claim):
+        x = float(fo[key])
+        tol = 1e-12
+        ok = {">": x > tol, ">=": x >= -tol, "<": x < -tol, "<=": x <= tol}[fr[key].op]
+        return ("not-reproduced" if ok else "reproduced"), f"code={x!r} must be {fr[key].op} 0 at {label}{list(idx)}"
     a = dict(fparts(fo[key]) if len(fparts(fo[key])) == 2 or part == "" else [("re", float(fo[key])), ("im", 0.0)])
     b = dict(fparts(fr[key]) if len(fparts(fr[key])) == 2 or part == "" else [("re", float(fr[key])), ("im", 0.0)])
     if part not in a:
